@@ -97,6 +97,7 @@ def main(argv=None):
     ap.add_argument("--run-budget", type=float, default=20.0)
     ap.add_argument("--no-shrink", action="store_true")
     ap.add_argument("--dump-digests", action="store_true")
+    ap.add_argument("--emit-cases", action="store_true")
     a = ap.parse_args(argv)
 
     out = os.fdopen(os.dup(1), "w")
@@ -147,6 +148,7 @@ def main(argv=None):
         with open(a.replay) as fh:
             rp = json.load(fh)
         case = driver.case_from_json(rp["case"]) if hasattr(driver, "case_from_json") else tuplify(rp["case"])
+        o = None
         try:
             o = guarded(lambda: driver.execute(ctx, case), a.run_budget * 3)
             v = o["violation"]
@@ -155,7 +157,8 @@ def main(argv=None):
         except Exception:
             emit({"type": "error", "msg": traceback.format_exc()})
             return 2
-        emit({"type": "replay", "violation": v})
+        emit({"type": "replay", "violation": v, "trace_digest": (o or {}).get("trace_digest"),
+              "steps": ((o or {}).get("extra") or {}).get("steps")})
         return 0
 
     # ---------------- search mode ----------------
@@ -184,7 +187,10 @@ def main(argv=None):
         agg["evaluations"] += 1
         agg["digests"].append(cd)
         if a.dump_digests:
-            agg["run_digests"].append([run, cd, o.get("trace_digest"), (o["violation"] or {}).get("cls")])
+            agg["run_digests"].append([run, cd, o.get("trace_digest"), (o["violation"] or {}).get("cls"),
+                                       (o.get("extra") or {}).get("steps")])
+        if a.emit_cases:
+            agg.setdefault("cases", {})[str(run)] = case
         if o["nontrivial"]:
             agg["nontrivial"].append(cd)
         for k, n in o["stats"].items():
